@@ -56,6 +56,8 @@ const (
 	// FaultFullErr: write side: every byte is accepted and an error is
 	// returned all the same (a buffering transport whose flush failed).
 	FaultFullErr = "full+error"
+	// FaultShortTimeout: part of the bytes is accepted, then the deadline hits.
+	FaultShortTimeout = "short-timeout"
 )
 
 // ErrInjected is the arbitrary (non-EOF, non-timeout) injected error.
@@ -92,6 +94,8 @@ func FaultErr(kind string) error {
 		return io.ErrUnexpectedEOF
 	case FaultTemporary, FaultShortTemporary:
 		return ErrTemporary
+	case FaultShortTimeout:
+		return ErrTimeout
 	default:
 		return ErrInjected
 	}
@@ -406,7 +410,7 @@ func (c *ScriptConn) Write(p []byte) (int, error) {
 	c.inWrite = false
 	if hit {
 		n := 0
-		if kind == FaultShort || kind == FaultShortTemporary {
+		if kind == FaultShort || kind == FaultShortTemporary || kind == FaultShortTimeout {
 			n = len(p) / 2
 			c.Wrote = append(c.Wrote, p[:n]...)
 		}
